@@ -324,6 +324,9 @@ theorem sizeChunks_eq (rd : Rd) (n : Nat) (hn : 0 < n) :
 
 def BuzOk (P : BuzP) : Prop := 32 ≤ P.min ∧ P.min ≤ P.max
 
+/-- hypotheses on the constants of the buzhash splitter w.r.t. the chunk size limit -/
+def BuzFits (L : Limits) (P : BuzP) : Prop := BuzOk P ∧ P.max ≤ L.chunkSizeLimit
+
 def cutBuz (P : BuzP) (d : Bytes) : Nat := if d.length < P.min then d.length else buzCut P (d.take P.max)
 
 theorem buzScan_bounds (P : BuzP) : ∀ (inc out : Bytes) (st : UInt32) (i : Nat),
